@@ -413,3 +413,95 @@ pub fn snapshot(i: &BoxI) -> SnapResolver {
     }
     SnapResolver(v)
 }
+
+
+/// probes used by the red area: an optional capability of an iterator type, and a kind type that remembers its thread
+pub mod backprobe {
+    use cstree::build::GreenNodeBuilder;
+    use cstree::syntax::SyntaxNode;
+    use cstree::{RawSyntaxKind, Syntax};
+
+    pub struct Probe<I>(pub I);
+    pub trait HasBack {
+        type Item;
+        fn probe_back(&mut self) -> Option<Option<Self::Item>>;
+    }
+    impl<I: DoubleEndedIterator> HasBack for Probe<I> {
+        type Item = I::Item;
+        fn probe_back(&mut self) -> Option<Option<I::Item>> {
+            Some(self.0.next_back())
+        }
+    }
+    pub trait NoBack {
+        type Item;
+        fn probe_back(&mut self) -> Option<Option<Self::Item>>;
+    }
+    impl<I: Iterator> NoBack for &mut Probe<I> {
+        type Item = I::Item;
+        fn probe_back(&mut self) -> Option<Option<I::Item>> {
+            None
+        }
+    }
+
+    fn tid() -> u64 {
+        use std::sync::atomic::{AtomicU64, Ordering};
+        static NEXT: AtomicU64 = AtomicU64::new(1);
+        thread_local! { static ID: u64 = NEXT.fetch_add(1, Ordering::Relaxed); }
+        ID.with(|x| *x)
+    }
+
+    #[derive(Clone, Copy, Debug, PartialEq, Eq)]
+    pub struct Stamped {
+        raw:     u32,
+        made_on: u64,
+    }
+    impl Syntax for Stamped {
+        fn from_raw(raw: RawSyntaxKind) -> Self {
+            Stamped { raw: raw.0, made_on: tid() }
+        }
+        fn into_raw(self) -> RawSyntaxKind {
+            RawSyntaxKind(self.raw)
+        }
+        fn static_text(self) -> Option<&'static str> {
+            None
+        }
+    }
+
+    /// every `kind()` a thread asks for must be a value made on that thread
+    pub fn kind_stamp_probe() -> Option<String> {
+        let mut b: GreenNodeBuilder<'static, 'static, Stamped> = GreenNodeBuilder::new();
+        b.start_node(Stamped::from_raw(RawSyntaxKind(0)));
+        b.token(Stamped::from_raw(RawSyntaxKind(10)), "a");
+        b.start_node(Stamped::from_raw(RawSyntaxKind(1)));
+        b.token(Stamped::from_raw(RawSyntaxKind(10)), "b");
+        b.finish_node();
+        b.finish_node();
+        let (g, _) = b.finish();
+        let root: SyntaxNode<Stamped> = SyntaxNode::new_root(g);
+        let check = |root: &SyntaxNode<Stamped>, round: &str| -> Option<String> {
+            let me = tid();
+            for el in root.descendants_with_tokens() {
+                let (k, what) = match el {
+                    cstree::util::NodeOrToken::Node(n) => (n.kind(), "node"),
+                    cstree::util::NodeOrToken::Token(t) => (t.kind(), "token"),
+                };
+                if k.made_on != me {
+                    return Some(format!(
+                        "{}: kind() of a {} (raw {}) asked on thread {} returned a value of the kind type that was made on thread {}: the tree keeps values of `S`, which the Send / Sync impls do not constrain",
+                        round, what, k.raw, me, k.made_on
+                    ));
+                }
+            }
+            None
+        };
+        if let Some(m) = check(&root, "first pass, owning thread") {
+            return Some(m);
+        }
+        let r = std::thread::scope(|s| s.spawn(|| check(&root, "second pass, another thread (shared by reference)")).join().unwrap());
+        if r.is_some() {
+            return r;
+        }
+        let moved = std::thread::spawn(move || check(&root, "third pass, a thread the tree was moved to")).join().unwrap();
+        moved
+    }
+}
